@@ -189,6 +189,7 @@ impl CommonDeriveInput {
 fn replicate_field_param_bounds(
     generics: &syn::Generics,
     field_types: &[String],
+    is_zero_copy: bool,
     where_clause_ser: &mut WhereClause,
     where_clause_des: &mut WhereClause,
 ) {
@@ -228,6 +229,23 @@ fn replicate_field_param_bounds(
         if !is_param || !field_types.iter().any(|x| ty == x) {
             continue;
         }
+        // Add the type bounds to the SerType
+        where_clause_ser
+            .predicates
+            .push(WherePredicate::Type(PredicateType {
+                lifetimes: None,
+                bounded_ty: syn::parse_quote!(
+                    <#ty as epserde::ser::SerializeInner>::SerType
+                ),
+                colon_token: token::Colon::default(),
+                bounds: bounds.clone(),
+            }));
+        // The DeserType of a zero-copy type is a reference to the type itself:
+        // the DeserType of its parameters does not appear in it, and it does
+        // not satisfy, in general, the bounds (e.g., ZeroCopy) of the parameter.
+        if is_zero_copy {
+            continue;
+        }
         // Add a lifetime so we express bounds on DeserType
         let mut lifetimes = Punctuated::new();
         lifetimes.push(GenericParam::Lifetime(LifetimeParam {
@@ -248,17 +266,6 @@ fn replicate_field_param_bounds(
                 }),
                 bounded_ty: syn::parse_quote!(
                     <#ty as epserde::deser::DeserializeInner>::DeserType<'epserde_desertype>
-                ),
-                colon_token: token::Colon::default(),
-                bounds: bounds.clone(),
-            }));
-        // Add the type bounds to the SerType
-        where_clause_ser
-            .predicates
-            .push(WherePredicate::Type(PredicateType {
-                lifetimes: None,
-                bounded_ty: syn::parse_quote!(
-                    <#ty as epserde::ser::SerializeInner>::SerType
                 ),
                 colon_token: token::Colon::default(),
                 bounds,
@@ -465,6 +472,7 @@ pub fn epserde_derive(input: TokenStream) -> TokenStream {
                     .iter()
                     .map(|x| x.to_token_stream().to_string())
                     .collect::<Vec<_>>(),
+                is_zero_copy,
                 &mut where_clause_ser,
                 &mut where_clause_des,
             );
@@ -776,6 +784,7 @@ pub fn epserde_derive(input: TokenStream) -> TokenStream {
                     .iter()
                     .map(|x| x.to_token_stream().to_string())
                     .collect::<Vec<_>>(),
+                is_zero_copy,
                 &mut where_clause_ser,
                 &mut where_clause_des,
             );
